@@ -424,7 +424,8 @@ impl<'a> ExprGen<'a> {
             },
             Ty::Int(s) => match self.rng.below(20) {
                 0..=6 => {
-                    let op = *self.rng.pick(&ARITH_OPS);
+                    // division is rare: it is irrelevant to the optimiser and expensive for the TLC oracle
+                    let op = if self.rng.chance(1, 16) { *self.rng.pick(&ARITH_OPS[6..]) } else { *self.rng.pick(&ARITH_OPS[..6]) };
                     let l = self.expr(Ty::Int(s), d, ctx);
                     let r = self.expr(Ty::Int(s), d, ctx);
                     bin(op, l, r)
